@@ -649,13 +649,20 @@ def rule_gate(ctx, rep):
             B = cfg.Body(b)
             cuts = None
             for bi, bl in enumerate(b["blocks"]):
-                for s in bl["stmts"]:
+                tt_ = bl["term"]
+                stmts_ = list(bl["stmts"])
+                if tt_["k"] == "drop" and _has_data(F, tt_["place"]):
+                    # `(*p).data = v` drops the old value in place first: a write like any other
+                    stmts_.append({"k": "assign", "lhs": tt_["place"], "rv": {"k": "use", "op": {"const": "drop"}}, "span": tt_["span"]})
+                for s in stmts_:
                     if s["k"] != "assign":
                         continue
                     rv = s["rv"]
                     prod = None
                     root_pl = None
-                    if rv["k"] == "ref" and rv["mut"] and _has_data(F, rv["place"]) and not s["span"].get("exp_internal"):
+                    if _has_data(F, s["lhs"]) and not s["span"].get("exp_internal"):
+                        prod, root_pl = "write into the payload", s["lhs"]
+                    elif rv["k"] == "ref" and rv["mut"] and _has_data(F, rv["place"]) and not s["span"].get("exp_internal"):
                         prod, root_pl = "mutable borrow of the payload", rv["place"]
                     elif rv["k"] == "ref" and rv["mut"] and rv["place"]["p"] and rv["place"]["p"][0] == "deref" and _via_data_pointer_handle(F, B, rv["place"]["l"]) is not None:
                         # `&mut *p` where p is the value pointer stored in an OffsetArc / ArcBorrow: the payload without passing through INNER
@@ -671,7 +678,7 @@ def rule_gate(ctx, rep):
                     if prod is None or root_pl is None:
                         continue
                     nprod += 1
-                    ik = "%s/%s" % (b["key"], {"mutable borrow of the payload": "mut-payload-borrow", "cast of `&mut Arc` to `&mut UniqueArc`": "cast-to-unique-ref", "construction of a UniqueArc": "wrap-unique"}[prod])
+                    ik = "%s/%s" % (b["key"], {"write into the payload": "payload-write", "mutable raw pointer to the payload": "mut-payload-rawptr", "mutable borrow of the payload": "mut-payload-borrow", "cast of `&mut Arc` to `&mut UniqueArc`": "cast-to-unique-ref", "construction of a UniqueArc": "wrap-unique"}[prod])
                     loc = F.loc(b, s["span"])
                     if b["key"] in EXEMPT:
                         if b["key"] not in [x["key"] for x in rep.exempt]:
@@ -786,6 +793,9 @@ def rule_gate_for(ctx, rep, members):
 def run(ctx, rep):
     rule_gate(ctx, rep)
     # premise of the verdict: the count equals the number of owning handles on every path, unwinding included
+    from . import c12 as _c12
+
+    _c12.union_dispatch(ctx, rep)  # ArcUnion owners are counted on the block of the Arc they were made from (tag arithmetic, per-variant types)
     balance.rule_bal(ctx, rep)
     balance.rule_unw(ctx, rep)
     for tag, F, E in ctx.each():
